@@ -8,7 +8,8 @@ EXPLANATION = (
     "interleaved in every order-preserving way and the combined program is compiled by the real pipeline; every output "
     "and entity condition of either computation must equal its S3 value for all int32 inputs (SMT). A difference that "
     "vanishes under ideal isolation (producers without a signal-graph edge disconnected) is the recorded wire-isolation "
-    "finding KF-K7-crosstalk; any other difference is a violation. P tier: relay network-id invariant (RelayNode), signal allocation, "
+    "finding KF-K7-crosstalk; any other difference is a violation. P tier: relay network-id invariant (RelayNode), the relay router is asked with the "
+    "network id stored for (source, sink, resolved signal) (_route_connection_with_relays), signal allocation, "
     "and the CSE key lemma (two nodes are merged only if they agree in operator, operands, output type and mode — independent "
     "computations over different inputs are never identified)."
 )
@@ -36,4 +37,4 @@ def run(tier):
     progs = gen.c12_scope(tier)
     return run_e2e_property("C12", tier, EXPLANATION, "DESIGN §4 C12",
                             [("e2e-interleavings", progs, "7 pairs of independent computations x order-preserving interleavings")],
-                            contract_modules=["contracts.c08", "contracts.c13", "contracts.c10"], extra=_colour_box)
+                            contract_modules=["contracts.c08", "contracts.c13", "contracts.c10", "contracts.c12"], extra=_colour_box)
